@@ -74,29 +74,24 @@ impl WaitGroup {
   ///
   /// If the counter is already zero when called, returns immediately.
   pub async fn wait(&self) {
-    // Fast path: Check if already zero.
-    // Acquire load synchronizes with the AcqRel fetch_sub in done().
-    if self.count.load(Ordering::Acquire) == 0 {
-      tracing::trace!("WaitGroup::wait() called when count is already zero");
-      return;
-    }
-    #[cfg(rzmq_verif)]
-    crate::verif::point("wg.wait.checked");
-
-    // Slow path: Wait for notification.
     loop {
-      // Wait until notified. notified() consumes a permit.
-      self.notify_on_zero.notified().await;
+      // Register for the notification BEFORE checking the counter: `notify_waiters()` only wakes
+      // waiters that are already registered, so a check-then-wait would miss a `done()` that runs
+      // between the check and the wait and then sleep forever.
+      let notified = self.notify_on_zero.notified();
+      tokio::pin!(notified);
+      notified.as_mut().enable();
 
-      // Check count again after notification (spurious wakeup or race check).
+      // Acquire load synchronizes with the AcqRel fetch_sub in done().
       if self.count.load(Ordering::Acquire) == 0 {
-        tracing::trace!("WaitGroup::wait() released after notification");
+        tracing::trace!("WaitGroup::wait() released: count is zero");
         return;
       }
-      tracing::trace!("WaitGroup::wait() woke, but count is non-zero; re-waiting");
       #[cfg(rzmq_verif)]
-      crate::verif::point("wg.wait.rechecked");
-      // If count is still non-zero, loop and wait again.
+      crate::verif::point("wg.wait.checked");
+
+      notified.await;
+      tracing::trace!("WaitGroup::wait() woke; re-checking count");
     }
   }
 
